@@ -73,7 +73,9 @@ func (p c04Param) wire() string {
 func (sh c04Shape) elems(withRest bool) (lisp, wire []string) {
 	add := func(l, w string) {
 		if strings.HasPrefix(l, "&") {
+			// the model reads the marker as it is written (parseLLci folds its case)
 			l = c04MarkerCase(l, sh.mcase)
+			w = c04Sym(l)
 		}
 		lisp = append(lisp, l)
 		wire = append(wire, w)
@@ -103,7 +105,7 @@ func (sh c04Shape) elems(withRest bool) (lisp, wire []string) {
 		if sh.aok {
 			lisp = append(lisp, c04MarkerCase("&allow-other-keys", sh.mcase))
 		}
-		wire = append(wire, c04Sym("&allow-other-keys"))
+		wire = append(wire, c04Sym(c04MarkerCase("&allow-other-keys", sh.mcase)))
 	}
 	if len(sh.aux) > 0 {
 		add("&aux", c04Sym("&aux"))
@@ -117,6 +119,7 @@ func (sh c04Shape) elems(withRest bool) (lisp, wire []string) {
 // llWireRaw: the lambda list exactly as it is written for slip (&allow-other-keys only when the
 // shape has it): what DefLambda sees, for the code-level machine `ll impl`.
 func (sh c04Shape) llWireRaw() string {
+	sh.mcase = 0 // the machine works on the lower-case markers (GenC04.marker_fold_facts: every comparison folds case)
 	l, w := sh.elems(true)
 	if len(w) > len(l) {
 		// elems appended the model's &allow-other-keys to the wire form only: drop it again
